@@ -22,6 +22,7 @@ from liquid2 import TokenStream
 from liquid2 import TokenType
 from liquid2.ast import Partial
 from liquid2.ast import PartialScope
+from liquid2.builtin.expressions import identifier_as_source
 from liquid2.builtin import Identifier
 from liquid2.builtin import StringLiteral
 from liquid2.builtin import parse_string_or_identifier
@@ -184,9 +185,9 @@ class BlockNode(Node):
         assert isinstance(self.token, TagToken)
         required = " required" if self.required else ""
         return (
-            f"{{%{self.token.wc[0]} block {self.name}{required} {self.token.wc[1]}%}}"
+            f"{{%{self.token.wc[0]} block {identifier_as_source(self.name)}{required} {self.token.wc[1]}%}}"
             f"{self.block}"
-            f"{{%{self.end_tag_token.wc[0]} endblock {self.name} "
+            f"{{%{self.end_tag_token.wc[0]} endblock {identifier_as_source(self.name)} "
             f"{self.end_tag_token.wc[1]}%}}"
         )
 
